@@ -10,6 +10,7 @@ CONSTANTS
   StartAll = FALSE
   StartSuf = {TRUE, FALSE}
   EvpAny = FALSE
+  SymFirst = TRUE
   WithSetLast = TRUE
   Guard = "before"
 VIEW View
